@@ -143,6 +143,13 @@ func (u *Unit) discharge(o *Oblig, text string, dir string, timeoutS int, which 
 		o.result, o.output = "error", err.Error()
 		return
 	}
+	if o.expectFail {
+		// vacuity probe: a quick `sat`/`unknown` is the good outcome
+		which = which[:1]
+		if timeoutS > 3 {
+			timeoutS = 3
+		}
+	}
 	ctx, cancel := context.WithCancel(context.Background())
 	defer cancel()
 	ch := make(chan solveResult, len(which))
@@ -155,6 +162,13 @@ func (u *Unit) discharge(o *Oblig, text string, dir string, timeoutS int, which 
 		all = append(all, r)
 		if r.status == "unsat" {
 			o.result, o.solver, o.timeS = "proved", r.solver, r.timeS
+			if o.expectFail {
+				o.result = "vacuous"
+			}
+			return
+		}
+		if o.expectFail {
+			o.result, o.solver, o.timeS = "reachable", r.solver, r.timeS
 			return
 		}
 		if r.status == "sat" {
@@ -196,6 +210,9 @@ func dischargeAll(units []*Unit, dir string, timeoutS int, par int, which []solv
 	var jobs []job
 	for _, u := range units {
 		for _, o := range u.obligs {
+			if o.result != "" {
+				continue // discharged syntactically
+			}
 			jobs = append(jobs, job{u, o, u.script(o, nil)}) // sequential: the term table is not thread-safe
 		}
 	}
